@@ -145,6 +145,40 @@ func propStream(name string, r *Rand, n int, o *Out) bool {
 				}
 			}
 		}
+		// the accessors under every single parser option (other than lax host parsing and the host hooks, which change what a
+		// host may look like): urls of every shape, every setter with values that would change the shape, clone, resolution
+		for i := range optSpecs {
+			// (fail mode is excluded too: there a setter stops at the first validation error and leaves the url half-way —
+			// `sc:/p` + SetPathname("C|") is `sc:` with an empty non-opaque path; recorded in DESIGN 13.4, outside the
+			// property's default-parser histories)
+			if nm := optSpecs[i].Name; nm == "LaxHostParsing" || nm == "PreParseHostFunc" || nm == "PostParseHostFunc" || nm == "FailOnValidationError" {
+				continue
+			}
+			c := cfgFromMask(r.Fork(), 1<<uint(i))
+			tbl := c.Opts.SpecialSchemes
+			for _, st := range []string{"mailto:user@example.com", "sc:op ?q#f", "data:x", "sc:/p", "sc://h/p", "http://h:8/p?q#f", "file:///C:/x", "http://1.2.3.4/"} {
+				for setter := 0; setter < 9; setter++ {
+					for _, v := range []string{"/inbox", "//h2/x", "", "x", "C|", "h2:1", "file", "sc", "[::1]", "?", "#"} {
+						h := &Hist{}
+						k := h.Parse(c, st)
+						if k < 0 {
+							continue
+						}
+						h.Set(k, setter, v)
+						checkAccessorsTbl(h.urls[k], tbl, strings.Join(h.ops, " ; "))
+						if c2 := h.Clone(k); c2 >= 0 {
+							checkAccessorsTbl(h.urls[c2], tbl, strings.Join(h.ops, " ; "))
+						}
+						if r2 := h.Resolve(k, "y"); r2 >= 0 {
+							checkAccessorsTbl(h.urls[r2], tbl, strings.Join(h.ops, " ; "))
+						}
+						if setter == 6 || v == "/inbox" {
+							o.EmitHist("o", h)
+						}
+					}
+				}
+			}
+		}
 		for i := 0; i < n; i++ {
 			ho := defaultHist("C19")
 			ho.Clone = true
@@ -254,6 +288,20 @@ func streamC01(r *Rand, n int, o *Out) {
 			}
 		}
 		o.EmitHist("x", h)
+	}
+	// every host of the pool (boundary numbers, zero-padded numbers, IPv6 literals with tied zero runs and digit-count
+	// boundaries, forbidden code points …) under a special, the file and a non-special scheme, and through the host setter:
+	// deterministic, so that a catch does not depend on a draw
+	for _, hs := range weirdHosts {
+		h := &Hist{}
+		h.ParsePkg("http://" + hs + "/p")
+		h.ParsePkg("file://" + hs + "/p")
+		h.ParsePkg("sc://" + hs + "/p")
+		if k := h.ParsePkg("https://start.example/x"); k >= 0 {
+			h.Set(k, 3, hs)
+			h.Resolve(k, "//"+hs+"/y")
+		}
+		o.EmitHist("w", h)
 	}
 	// exhaustive: EVERY string over the structural alphabet up to a length that grows with the budget (quick: 3,
 	// thorough: 4), parsed alone, after "a:" / "http:" / "file:" prefixes chosen so that every state is entered, and as a
@@ -1092,6 +1140,9 @@ func streamC09(r *Rand, n int, o *Out) {
 			for _, scheme := range []string{"https", "file"} {
 				orc.Eval("C09")
 				in := scheme + "://" + v + "/"
+				// the same host TEXT under a non-special scheme first, on the same parser: what a host means is decided by the
+				// scheme of the url being parsed, never by what the parser saw before (a host memo keyed by the text, wave 10's S99)
+				url.Parse("sc://" + v + "/")
 				u, err := url.Parse(in)
 				k := "ERR"
 				if err == nil {
@@ -1122,6 +1173,7 @@ func streamC09(r *Rand, n int, o *Out) {
 						orc.Fail("C09", "file-localhost", "host "+q(hn), "P "+defaultCfg.Tok+" "+xs(in))
 					}
 				}
+				h.ParsePkg("sc://" + v + "/")
 				h.ParsePkg(in)
 				// the same spelling through the host setters, on a parsed URL and on a clone of it: the pipeline is the same one
 				if vi == 0 || rr.P(35) {
@@ -1495,9 +1547,21 @@ func roundTripClassOf(orig, back refList) string {
 	return class
 }
 
+func hasCompleteEscape(s string) bool {
+	isHex := func(c byte) bool { return c >= '0' && c <= '9' || c >= 'a' && c <= 'f' || c >= 'A' && c <= 'F' }
+	for i := 0; i+2 < len(s); i++ {
+		if s[i] == '%' && isHex(s[i+1]) && isHex(s[i+2]) {
+			return true
+		}
+	}
+	return false
+}
+
 func roundTripClass(l refList) string {
 	for _, p := range l {
-		if strings.ContainsAny(p[0], "&=+%#") || strings.ContainsAny(p[1], "&+%#") || !utf8Valid(p[0]) || !utf8Valid(p[1]) {
+		// the EXACT class of pairs that do not survive (Props/C11b.lean, `C11b_roundtrip_iff`): ill-formed UTF-8, a name with
+		// `&`, `=` or `+`, a value with `&` or `+`, or a complete escape `%XX` in either (a lone `%` and `#` survive)
+		if strings.ContainsAny(p[0], "&=+") || strings.ContainsAny(p[1], "&+") || hasCompleteEscape(p[0]) || hasCompleteEscape(p[1]) || !utf8Valid(p[0]) || !utf8Valid(p[1]) {
 			return "urlencoded-delimiter-or-escape-in-pair"
 		}
 		if strings.ContainsAny(p[0], "'\x00\t\n\r") || strings.ContainsAny(p[1], "'\x00\t\n\r") {
